@@ -8,6 +8,7 @@ CONSTANTS
   MaxReq = 3
   MaxBatch = 1
   Hist = TRUE
+  Deliveries = {"single"}
   SplitReg = TRUE
 INVARIANTS TypeOK Partition NextRequest
 PROPERTIES P_C20
